@@ -17,6 +17,10 @@ NOT_PROVED = ["floating-point evaluation of the colour formulas (numpy pow) is o
               "the Coq theorem covers white",
               "stretch: the Q model predicts integer outputs exactly; floating outputs are judged by order predicates"]
 BUDGET_S = {"quick": 90, "thorough": 900}
+# The independent checker re-checks every file of this development that C20 depends on, but loads coq-interval and
+# everything it imports (Flocq, Coquelicot, MathComp ssreflect, Coq.Reals) without re-checking them: a full re-check of those
+# installed libraries takes more than 25 CPU minutes (tools/coqchk_full.sh C20 does it, as a soak target).
+COQCHK_ADMIT = ["Interval.Tactic"]
 
 M_RGB2XYZ = np.array([[0.4124, 0.3576, 0.1805], [0.2126, 0.7152, 0.0722], [0.0193, 0.1192, 0.9505]])
 
